@@ -522,6 +522,8 @@ fn stress(args: &Args, r: &mut Report) {
     r.shapes.insert(crate::common::shape_of(&["stress", &format!("reconfigs{}", reconfigs)]));
     r.hits("c17-stress-response-in-window", j);
     r.count("reconfigurations", reconfigs as u64);
+    r.sample(json!({"stress": "6 request tasks x 1 reconfiguration task on an 8-worker runtime", "responses_judged": j, "reconfigurations": reconfigs,
+        "violations": violations.lock().unwrap().len()}));
     for v in violations.lock().unwrap().iter().take(5) {
         r.violation("c17-stress-response-in-window", "c17-stress-response-in-window", v.clone(), json!({"stress": true}));
     }
